@@ -14,13 +14,18 @@ oracle : the properties evaluated on the real code alone, against small independ
            C08_terminates            the real code returns within the alarm
            C03_serialize             TraceSerializer(trace) == reference segment of the unrolled program
 
+Generated shapes: `loop n { … }`, `loop n < g >`, `loop n < { … } >`, `loop n < b | b >`, `< { … } >`, `< g >`,
+multi-branch `< g | { … } | … >` (ordinary gates on disjoint qubits only, so the out-of-scope "Parallel branches"
+rejection never fires), top-level `{ … }`; loop counts 0..3.  Addresses were checked against the real ones.
+To test another source tree (e.g. a mutant): PYTHONPATH=<tree>/src walk_diff.py …  (takes precedence over /repo).
+
 Importable (`run`, `replay`); CLI: walk_diff.py [--model EXE] [--seed S] [--n N] [--thorough]
 """
 import os, sys, json, random, signal, subprocess, argparse
 
 DEFAULT_DRIVER = "/verif/lean/.lake/build/bin/jaqal-model"
 NQ = 4
-ORD = [("X", q) for q in range(NQ)] + [("H", q) for q in range(NQ)]   # payload id -> (name, qubit)
+ORD = [("X", q) for q in range(NQ)] + [("Y", q) for q in range(NQ)]   # payload id -> (name, qubit)
 _real = {}
 
 
@@ -29,11 +34,14 @@ def _load():
     if _real:
         return _real
     os.environ["JAQALPAQ_RUN_EMULATOR"] = "1"
-    if "/verif/notes/probes" not in sys.path:
-        sys.path.insert(0, "/verif/notes/probes")
+    root = os.path.dirname(os.path.dirname(os.path.dirname(os.path.abspath(__file__))))   # …/verif
+    if not os.path.isfile(os.path.join(root, "harness", "gates.py")):
+        root = "/verif"
+    if root not in sys.path:
+        sys.path.insert(0, root)
     import warnings
     warnings.filterwarnings("ignore")
-    from gates import GI
+    from harness.gates import GATES_IDLE as GI
     from jaqalpaq.parser import parse_jaqal_string
     from jaqalpaq.emulator import run_jaqal_circuit
     from jaqalpaq.core.algorithm.walkers import DiscoverSubcircuits, TraceSerializer
@@ -52,62 +60,115 @@ def _alarm(*a):
 
 
 # ---------------------------------------------------------------- generation
-# items: ["g", "P"|"M"|<id>] | ["loop", n, items] | ["pblk", items]   (pblk = `< { ... } >`: two address levels)
+# A program is a list of sequential statements ("items"):
+#   ["g", "P"|"M"|<id>]            a gate (id -> ORD[id] = (name, qubit))
+#   ["loop", n, items]             loop n { items }          body = sequential block: items at a+[i]
+#   ["ploop", n, branches]         loop n < b | b | … >      body = parallel block:  branches at a+[j]
+#   ["par", branches]              < b | b | … >             branches at a+[j]
+#   ["seq", items]                 { items }                 only at top level (or as a branch); items at a+[i]
+# A branch is ["g", x] or ["seq", items] (items at a+[j, i]).  A loop directly inside < > and a { } directly inside
+# { } are not parseable.  Several branches are only generated with ordinary gates on pairwise disjoint qubit sets
+# (prepare_all / measure_all use every qubit, so they only occur in single-branch parallel blocks): the
+# "Parallel branches…" rejection is out of scope here and never triggered.
 
-def gen_items(rng, depth, maxdepth):
-    items = []
-    for _ in range(rng.randint(0, 4)):
+class Unbiased:
+    def gate(self, rng):
         k = rng.random()
-        if k < 0.27: items.append(["g", "P"])
-        elif k < 0.52: items.append(["g", "M"])
-        elif k < 0.66: items.append(["g", rng.randrange(len(ORD))])
-        elif depth < maxdepth:
-            if k < 0.86: items.append(["loop", rng.choice([0, 0, 1, 1, 2, 3]), gen_items(rng, depth + 1, maxdepth)])
-            else: items.append(["pblk", gen_items(rng, depth + 1, maxdepth)])   # a loop directly inside < > is not parseable
+        return "P" if k < 0.40 else "M" if k < 0.78 else rng.randrange(len(ORD))
+
+
+class Biased:
+    """flat-order aware: mostly keeps the prepare/measure discipline"""
+    def __init__(self): self.open = False
+    def gate(self, rng):
+        ok = rng.random() < 0.97
+        if self.open:
+            c = rng.random()
+            g = "M" if c < 0.4 else "P" if c < 0.5 else rng.randrange(len(ORD))
+            if not ok: g = "P"
+        else:
+            g = "P" if ok else rng.choice(["M", 0])
+        if g == "P": self.open = True
+        elif g == "M": self.open = False
+        return g
+
+
+def ord_on(rng, qs):
+    return rng.choice([i for i in range(len(ORD)) if ORD[i][1] in qs])
+
+
+def gen_branches(rng, depth, maxdepth, ch):
+    if rng.random() < 0.6 or getattr(ch, "open", True) is False:   # a single branch: anything goes
+        if rng.random() < 0.75: return [["seq", gen(rng, depth + 1, maxdepth, ch)]]
+        return [["g", ch.gate(rng)]]
+    qs = list(range(NQ)); rng.shuffle(qs)        # several branches on disjoint qubits, ordinary gates only
+    nb = rng.choice([2, 2, 3])
+    sets = [qs[i::nb] for i in range(nb)]
+    out = []
+    for q in sets:
+        if rng.random() < 0.5: out.append(["g", ord_on(rng, q)])
+        else:
+            body = []
+            for _ in range(rng.randint(0, 3)):
+                if rng.random() < 0.7: body.append(["g", ord_on(rng, q)])
+                else: body.append(["loop", rng.choice([0, 1, 2, 3]), [["g", ord_on(rng, q)] for _ in range(rng.randint(0, 2))]])
+            out.append(["seq", body])
+    return out
+
+
+def gen(rng, depth, maxdepth, ch, top=False, maxlen=4):
+    items = []
+    for _ in range(rng.randint(0, maxlen)):
+        k = rng.random()
+        if k < 0.58 or depth >= maxdepth: items.append(["g", ch.gate(rng)])
+        elif k < 0.75: items.append(["loop", rng.choice([0, 0, 1, 1, 2, 2, 3]), gen(rng, depth + 1, maxdepth, ch)])
+        elif k < 0.85: items.append(["ploop", rng.choice([0, 1, 2, 2, 3]), gen_branches(rng, depth + 1, maxdepth, ch)])
+        elif k < 0.95 or not top: items.append(["par", gen_branches(rng, depth + 1, maxdepth, ch)])
+        else: items.append(["seq", gen(rng, depth + 1, maxdepth, ch)])
     return items
 
 
-def gen_biased(rng, depth, maxdepth, st):
-    """Flat-order aware generator: mostly keeps the prepare/measure discipline (st[0] = a subcircuit is open)."""
-    items = []
-    for _ in range(rng.randint(0, 5)):
-        k = rng.random()
-        if k < 0.6:
-            ok = rng.random() < 0.97
-            if st[0]:
-                c = rng.random()
-                g = "M" if c < 0.4 else "P" if c < 0.5 else rng.randrange(len(ORD))
-                if not ok: g = "P"
-            else:
-                g = "P" if ok else rng.choice(["M", 0])
-            if g == "P": st[0] = True
-            elif g == "M": st[0] = False
-            items.append(["g", g])
-        elif depth < maxdepth:
-            if k < 0.88: items.append(["loop", rng.choice([0, 1, 2, 2, 3]), gen_biased(rng, depth + 1, maxdepth, st)])
-            else: items.append(["pblk", gen_biased(rng, depth + 1, maxdepth, st)])
-    return items
+def gen_items(rng, depth, maxdepth): return gen(rng, depth, maxdepth, Unbiased(), top=True)
+def gen_biased(rng, depth, maxdepth): return gen(rng, depth, maxdepth, Biased(), top=True, maxlen=5)
 
 
 P, M, G = ["g", "P"], ["g", "M"], ["g", 0]
+def pblk(items): return ["par", [["seq", items]]]
 CORNERS = [
     [P, ["loop", 2, [P, M]]], [P, ["loop", 2, [M]]], [P, ["loop", 2, [G, P]], M], [P, ["loop", 0, [M]]],
     [["loop", 0, [P]], G, M], [["loop", 0, [P, M]]], [["loop", 0, [P, M]], P, M], [P, ["loop", 0, [P, M]], M],
     [["loop", 3, [["loop", 0, [P, M]], P, G, M]]], [["loop", 2, [P, ["loop", 3, [G]], M]]],
-    [P, ["loop", 1, [M, P]], M], [P, ["loop", 2, [["loop", 1, [M]]]]], [P, ["pblk", [G, M]], P],
+    [P, ["loop", 1, [M, P]], M], [P, ["loop", 2, [["loop", 1, [M]]]]], [P, pblk([G, M]), P],
     [["loop", 2, [P]], ["loop", 2, [G]], M], [], [P], [M], [G],
-    [P, ["loop", 2, [P, M, P]], M], [P, ["loop", 2, [["loop", 2, [P, M]]]]], [P, ["loop", 3, [G, ["pblk", [P, G]]]], G, M],
+    [P, ["loop", 2, [P, M, P]], M], [P, ["loop", 2, [["loop", 2, [P, M]]]]], [P, ["loop", 3, [G, pblk([P, G])]], G, M],
+    # loops whose body is a parallel block
+    [P, ["ploop", 2, [M]]], [P, ["ploop", 3, [["seq", [M, P, G]]]], M], [P, ["ploop", 1, [["seq", [G, M]]]]],
+    [P, ["ploop", 2, [["seq", [P, M]]]]], [P, ["ploop", 0, [M]]], [["ploop", 2, [["seq", [P, G, M]]]]],
+    [P, ["ploop", 2, [["g", 0], ["g", 5]]], M], [P, ["loop", 2, [["ploop", 2, [M]]]]], [P, ["ploop", 2, [["seq", [["loop", 1, [M]]]]]]],
+    [P, ["ploop", 2, [["seq", [["par", [M]]]]]]], [["ploop", 0, [["seq", [P, M]]]], P, M],
+    # several branches, top-level sequential block
+    [P, ["par", [["g", 0], ["g", 5], ["seq", [["g", 2], ["loop", 2, [["g", 6]]]]]]], ["seq", [G, M]]],
+    [["seq", [P, ["par", [M]]]]], [["seq", [P]], ["seq", [G, M]]], [P, ["par", [["seq", [G, ["par", [["g", 1], ["g", 6]]]]], ["g", 7]]], M],
+    [["par", [["g", 0], ["g", 5]]]], [P, ["seq", [["loop", 2, [M]]]]],
 ]
+
+
+def gate_text(g):
+    return "prepare_all" if g == "P" else "measure_all" if g == "M" else f"{ORD[g][0]} r[{ORD[g][1]}]"
+
+
+def branch_text(b):
+    return gate_text(b[1]) if b[0] == "g" else "{\n" + jq(b[1]) + "\n}"
 
 
 def jq(items):
     out = []
     for it in items:
-        if it[0] == "g":
-            g = it[1]
-            out.append("prepare_all" if g == "P" else "measure_all" if g == "M" else f"{ORD[g][0]} r[{ORD[g][1]}]")
+        if it[0] == "g": out.append(gate_text(it[1]))
         elif it[0] == "loop": out.append(f"loop {it[1]} {{\n" + jq(it[2]) + "\n}")
-        else: out.append("< {\n" + jq(it[1]) + "\n} >")
+        elif it[0] == "ploop": out.append(f"loop {it[1]} < " + " | ".join(branch_text(b) for b in it[2]) + " >")
+        elif it[0] == "par": out.append("< " + " | ".join(branch_text(b) for b in it[1]) + " >")
+        else: out.append("{\n" + jq(it[1]) + "\n}")
     return "\n".join(out)
 
 
@@ -115,25 +176,36 @@ def src_of(items):
     return f"register r[{NQ}]\n" + jq(items) + "\n"
 
 
+def mj_branch(b):
+    return {"g": b[1]} if b[0] == "g" else {"b": mj(b[1]), "par": False}
+
+
 def mj(items):
     out = []
     for it in items:
         if it[0] == "g": out.append({"g": it[1]})
         elif it[0] == "loop": out.append({"l": it[1], "par": False, "b": mj(it[2])})
-        else: out.append({"b": [{"b": mj(it[1]), "par": False}], "par": True})
+        elif it[0] == "ploop": out.append({"l": it[1], "par": True, "b": [mj_branch(b) for b in it[2]]})
+        elif it[0] == "par": out.append({"b": [mj_branch(b) for b in it[1]], "par": True})
+        else: out.append({"b": mj(it[1]), "par": False})
     return out
 
 
 # ---------------------------------------------------------------- independent references (property text only)
 
+def children(it):
+    """the statements one address level below a compound item, in order"""
+    return it[-1]          # items of loop/seq, branches of ploop/par (a branch is itself an item: g or seq)
+
+
 def flat_tokens(items, addr, out):
-    """flat order with loop brackets; gates carry their address (pblk adds two levels, a loop one)"""
+    """flat order with loop brackets; gates carry their address"""
     for i, it in enumerate(items):
         a = addr + [i]
         if it[0] == "g": out.append(("g", it[1], a))
-        elif it[0] == "loop":
-            out.append(("[", it[1])); flat_tokens(it[2], a, out); out.append(("]",))
-        else: flat_tokens(it[1], a + [0], out)
+        elif it[0] in ("loop", "ploop"):
+            out.append(("[", it[1])); flat_tokens(children(it), a, out); out.append(("]",))
+        else: flat_tokens(children(it), a, out)
     return out
 
 
@@ -182,11 +254,11 @@ def ref_unroll(items, addr, once_prefix=None):
     for i, it in enumerate(items):
         a = addr + [i]
         if it[0] == "g": out.append((it[1], a))
-        elif it[0] == "loop":
-            body = ref_unroll(it[2], a, once_prefix)
+        elif it[0] in ("loop", "ploop"):
+            body = ref_unroll(children(it), a, once_prefix)
             if once_prefix is not None and once_prefix[:len(a)] == a: out += body
             else: out += body * max(it[1], 0)
-        else: out += ref_unroll(it[1], a + [0], once_prefix)
+        else: out += ref_unroll(children(it), a, once_prefix)
     return out
 
 
@@ -228,6 +300,10 @@ def real(items, timeout=5):
         except R["JaqalError"] as e:
             res["discover"] = {"err": errclass(str(e))}
             trs = None
+        except Hang: raise
+        except Exception as e:                      # anything but a JaqalError is itself a finding
+            res["discover"] = {"err": "raise " + type(e).__name__}
+            trs = None
         if trs is not None:
             try:
                 res["serialize"] = [[gate_tok(g) for g in R["Ser"](t).visit(c)] for t in trs]
@@ -246,6 +322,8 @@ def real(items, timeout=5):
         except R["JaqalError"] as e:
             res["visits"] = {"err": errclass(str(e))}
         except Hang: raise
+        except Exception as e:
+            res["visits"] = "raise " + type(e).__name__
     except Hang:
         res = {"hang": True}
     finally:
@@ -327,13 +405,17 @@ def check_case(items, md, mv, ms, timeout, corr, oracle, dist):
     elif ms["ok"] != ms["spec"]: dis("serialize", "model: serialize vs segment " + json.dumps(ms), None)
 
 
+def multibranch(items):
+    return any((it[0] in ("par", "ploop") and len(it[-1]) > 1) or (it[0] != "g" and multibranch(it[-1])) for it in items)
+
+
 def run(seed: int, n: int, driver: str = DEFAULT_DRIVER, thorough: bool = False) -> dict:
     rng = random.Random(seed)
     maxdepth = 4 if thorough else 3
     if thorough: n = n * 5
     timeout = 5
     progs = [json.loads(json.dumps(p)) for p in CORNERS]
-    progs += [gen_items(rng, 0, maxdepth) if i % 3 == 0 else gen_biased(rng, 0, maxdepth, [False]) for i in range(n)]
+    progs += [gen_items(rng, 0, maxdepth) if i % 3 == 0 else gen_biased(rng, 0, maxdepth) for i in range(n)]
     bodies = [mj(p) for p in progs]
     MD = model_batch(driver, "discover", bodies)
     MV = model_batch(driver, "visits", bodies)
@@ -344,12 +426,14 @@ def run(seed: int, n: int, driver: str = DEFAULT_DRIVER, thorough: bool = False)
     dist = {}
     for p, md, mv, ms in zip(progs, MD, MV, MS):
         check_case(p, md, mv, ms, timeout, corr, oracle, dist)
-    for d in corr.values(): d["disagreements"] = d["disagreements"][:20]
-    for d in oracle.values(): d["failures"] = d["failures"][:20]
-    def ntok(items): return sum(1 if it[0] == "g" else ntok(it[-1]) for it in items)
+    for d in corr.values(): d["total"] = len(d["disagreements"]); d["disagreements"] = d["disagreements"][:20]
+    for d in oracle.values(): d["total"] = len(d["failures"]); d["failures"] = d["failures"][:20]
+    def ntok(items): return sum(1 if it[0] == "g" else ntok(children(it)) for it in items)
     nontrivial = len({json.dumps(p) for p in progs if ntok(p) >= 3})
     dist["cases"] = len(progs)
-    dist["with_loop"] = sum(1 for p in progs if "loop" in json.dumps(p))
+    for feat in ('"loop"', '"ploop"', '"par"', '"seq"'):
+        dist["with_" + feat.strip('"')] = sum(1 for p in progs if feat in json.dumps(p))
+    dist["with_multibranch"] = sum(1 for p in progs if multibranch(p))
     return {"corr": corr, "oracle": oracle, "distribution": dist,
             "samples": [{"items": p, "src": src_of(p)} for p in progs[len(CORNERS):len(CORNERS) + 5]],
             "nontrivial": nontrivial}
@@ -371,7 +455,7 @@ def replay(case: dict, driver: str = DEFAULT_DRIVER) -> dict:
 
 def main():
     ap = argparse.ArgumentParser()
-    ap.add_argument("--model", default=DEFAULT_DRIVER)
+    ap.add_argument("--model", "--driver", dest="model", default=DEFAULT_DRIVER)
     ap.add_argument("--seed", type=int, default=1)
     ap.add_argument("--n", type=int, default=4000)
     ap.add_argument("--thorough", action="store_true")
@@ -382,7 +466,7 @@ def main():
         for name, d in res[kind].items():
             lst = d["disagreements"] if kind == "corr" else d["failures"]
             bad += len(lst)
-            print(f"{kind:6} {name:28} cases {d['cases']:6}  {'disagreements' if kind == 'corr' else 'failures'} {len(lst)}")
+            print(f"{kind:6} {name:28} cases {d['cases']:6}  {'disagreements' if kind == 'corr' else 'failures'} {d['total']}")
             for x in lst[:3]:
                 print("   ", json.dumps({k: v for k, v in x.items() if k != "case"}), "\n    program:\n" + x["case"]["src"])
     print("distribution", res["distribution"], "nontrivial", res["nontrivial"])
